@@ -89,7 +89,7 @@ func (p *Proc) simplify() {
 					i = n.T
 					continue
 				}
-				if n.K == "nd" && n.T == n.F {
+				if (n.K == "nd" || (n.K == "test" && n.A != "deferred")) && n.T == n.F {
 					i = n.T
 					continue
 				}
@@ -116,10 +116,82 @@ func (p *Proc) simplify() {
 			changed = true
 		}
 	}
-	p.dropEmptyDefers()
-	p.collapseTails()
-	p.mergeEqual()
-	p.compact()
+	for round := 0; round < 4; round++ {
+		p.dropEmptyDefers()
+		p.collapseTails()
+		p.canonNd()
+		p.mergeEqual()
+		p.compact()
+	}
+}
+
+// canonNd replaces every web of nd nodes by a canonical chain over the set of non-nd nodes it can
+// reach through nd nodes only (two nd nodes with the same exit set are indistinguishable).
+func (p *Proc) canonNd() {
+	p.resolveSkips()
+	exits := map[int][]int{}
+	var collect func(i int, seen map[int]bool, acc map[int]bool)
+	collect = func(i int, seen map[int]bool, acc map[int]bool) {
+		if i <= 0 || seen[i] {
+			return
+		}
+		seen[i] = true
+		n := p.Nodes[i-1]
+		if n.K != "nd" {
+			acc[i] = true
+			return
+		}
+		collect(n.T, seen, acc)
+		collect(n.F, seen, acc)
+	}
+	orig := len(p.Nodes)
+	for i := 1; i <= orig; i++ {
+		if p.Nodes[i-1].K == "nd" {
+			acc := map[int]bool{}
+			collect(i, map[int]bool{}, acc)
+			var l []int
+			for e := range acc {
+				l = append(l, e)
+			}
+			sort.Ints(l)
+			exits[i] = l
+		}
+	}
+	memo := map[string]int{}
+	var chain func(l []int) int
+	chain = func(l []int) int {
+		if len(l) == 0 {
+			return 0
+		}
+		if len(l) == 1 {
+			return l[0]
+		}
+		key := fmt.Sprint(l)
+		if v, ok := memo[key]; ok {
+			return v
+		}
+		rest := chain(l[1:])
+		v := p.add(&Node{K: "nd", T: l[0], F: rest})
+		memo[key] = v
+		return v
+	}
+	redirect := func(i int) int {
+		if i > 0 && i <= orig && p.Nodes[i-1].K == "nd" {
+			if len(exits[i]) == 0 { // diverging nd loop: behaves like a return for the property
+				return p.add(&Node{K: "ret"})
+			}
+			return chain(exits[i])
+		}
+		return i
+	}
+	for i := 0; i < orig; i++ {
+		n := p.Nodes[i]
+		if n.K == "nd" {
+			continue
+		}
+		n.T, n.F = redirect(n.T), redirect(n.F)
+	}
+	p.Entry = redirect(p.Entry)
 }
 
 // collapseTails: a node from which only nd/ret nodes are reachable behaves like ret.
@@ -200,7 +272,7 @@ func (p *Proc) resolveSkips() {
 		for i > 0 && !seen[i] {
 			seen[i] = true
 			n := p.Nodes[i-1]
-			if n.K == "skip" || (n.K == "nd" && n.T == n.F) {
+			if n.K == "skip" || ((n.K == "nd" || (n.K == "test" && n.A != "deferred")) && n.T == n.F) {
 				i = n.T
 				continue
 			}
